@@ -87,7 +87,7 @@ PLANS = {
         'deadline': {'quick': 420, 'thorough': 2400},
         'jobs': [
             job('failover', 'failover', 'C09', {'quick': 4, 'thorough': 5}, 1,
-                wit=['c09_selection_checked', 'c09_network_view_checked', 'c09_failed_over', 'c09_probe_seen', 'c09_rotate_choice', 'policy_alternatives', 'tx_tcp']),
+                wit=['c09_selection_checked', 'c09_selection_after_list_edit', 'c09_network_view_checked', 'c09_failed_over', 'c09_probe_seen', 'c09_rotate_choice', 'policy_alternatives', 'tx_tcp']),
         ],
     },
     'C12': {
